@@ -62,6 +62,11 @@ def cells(tier, seed):
             for dk in KINDS1:
                 for rk in KINDS1:
                     yield {"fam": "gen1", "backing": b, "m": m, "n": n, "dk": dk, "rk": rk, "cat": k}
+    # function-backed models whose forward/adjoint return VIEWS of their input (no allocation): reversal, restriction,
+    # strided sub-sampling, identity - the matrix assembly must not alias the probing vector
+    for view in ("reverse", "restrict", "stride", "identity"):
+        for n in ((5,) if not thorough else (5, 8)):
+            yield {"fam": "genview", "view": view, "n": n, "backing": "func", "dk": "default", "rk": "default", "cat": k}
     # 2-D: domain image (r, c); matrix backing M (r2 x r) acts on the image columns -> range image (r2, c);
     # function backing X -> L X R with range image (r2, c2)
     shapes2 = [(2, 3, 3, 2)] if not thorough else [(2, 3, 3, 2), (3, 2, 2, 3), (3, 3, 4, 2)]
@@ -169,6 +174,30 @@ def build(cell):
         else:
             model = LinearModel(_wrap_matrix(M, b), range_geometry=rg, domain_geometry=dg)
         return model, "LinearModel", "backing=%s,geometry=%s" % (_bk(b), _gcat(cell))
+    if fam == "genview":
+        n, view = cell["n"], cell["view"]
+        if view == "reverse":
+            m, fwd, adj = n, (lambda x: x[::-1]), (lambda y: y[::-1])
+        elif view == "identity":
+            m, fwd, adj = n, (lambda x: x), (lambda y: y)
+        elif view == "restrict":
+            m = n - 2
+            fwd = lambda x: x[:m]
+
+            def adj(y):
+                out = np.zeros(n)
+                out[:m] = y
+                return out
+        else:
+            m = (n + 1) // 2
+            fwd = lambda x: x[::2]
+
+            def adj(y):
+                out = np.zeros(n)
+                out[::2] = y
+                return out
+        model = LinearModel(fwd, adj, range_geometry=m, domain_geometry=n)
+        return model, "LinearModel", "backing=function-view,geometry=identity"
     if fam == "gen2":
         r, c, r2, c2, b = cell["r"], cell["c"], cell["r2"], cell["c2"], cell["backing"]
         Lm = refs.full_matrix(r2, r, k)
@@ -293,7 +322,7 @@ def check_model(res, model, comp, facet, cell):
     bk = "matrix" if matrix_backed else "function"
     # faults of LinearModel's own machinery (matrix, transpose model, matrix-backed maps) are named by backing
     # and a coarse geometry category only; the test problem's options name a fault only for its own callables
-    if cell["fam"] in ("gen1", "gen2"):
+    if cell["fam"] in ("gen1", "gen2", "genview"):
         gfacet = facet
     else:
         gcat = {"deconv1d": "identity", "deconv1d-legacy": "identity", "deconv2d": "image"}.get(
@@ -428,6 +457,20 @@ def check_model(res, model, comp, facet, cell):
                 why = ""
             res.fail(sig, "get_matrix() %s does not reproduce forward(e_i) column by column%s" % (A.shape, why), A=A, F=F)
         res.outcomes.add("get_matrix:%s" % ("ok" if gm_ok else "differs"))
+        # the matrix must also be right on the second and third call on the same object (cached path)
+        if gm_ok:
+            for rep in (2, 3):
+                try:
+                    A2 = _dense(model.get_matrix())
+                except Exception as e:
+                    res.fail("C07|LinearModel|get_matrix-repeated|backing=%s" % bk, "call %d of get_matrix() raised %r" % (rep, e))
+                    break
+                res.transitions += 1
+                if not (A2.shape == F.shape and close(A2, F, 1e-9)):
+                    res.fail("C07|LinearModel|get_matrix-repeated|backing=%s" % bk,
+                             "call %d of get_matrix() on the same model returns %s which no longer reproduces forward "
+                             "column by column (the first call did)" % (rep, A2.shape), A2=A2, F=F)
+                    break
         # ---- (3b) transpose model taken after the matrix is cached -----------------------------------
         try:
             T1 = model.T
